@@ -131,7 +131,7 @@ func genLogical(t *rapid.T) logical {
 		l.LR.Headers = append(l.LR.Headers, vkit.HeaderKV{Name: "Cookie", Value: value})
 	}
 
-	l.BodyKind = rapid.SampledFrom([]string{"none", "json", "form", "yaml", "text"}).Draw(t, "bodyKind")
+	l.BodyKind = rapid.SampledFrom([]string{"none", "json", "form", "yaml", "text", "empty+json", "empty+form", "empty+yaml"}).Draw(t, "bodyKind")
 	l.BodyField = rapid.SampledFrom([]string{"alpha", "beta"}).Draw(t, "bodyField")
 
 	if l.LR.Method == "GET" || l.LR.Method == "DELETE" {
@@ -151,7 +151,14 @@ func genLogical(t *rapid.T) logical {
 	case "text":
 		l.LR.Body = []byte("just text " + l.BodyField)
 		l.LR.Headers = append(l.LR.Headers, vkit.HeaderKV{Name: "Content-Type", Value: "text/plain"})
+	case "empty+json", "empty+form", "empty+yaml":
+		// a content type is announced, but there is no body
+		l.LR.Headers = append(l.LR.Headers, vkit.HeaderKV{Name: "Content-Type", Value: map[string]string{"empty+json": "application/json",
+			"empty+form": "application/x-www-form-urlencoded", "empty+yaml": "application/yaml"}[l.BodyKind]})
 	}
+
+	// the body reaches the Envoy entry point as bytes or as string, depending on Envoy's configuration
+	l.LR.EnvoyBodyAsString = len(l.LR.Body) != 0 && !strings.Contains(l.BodyKind, "empty") && rapid.IntRange(0, 2).Draw(t, "envoyBodyAsString") == 0
 
 	return l
 }
